@@ -1176,7 +1176,7 @@ flatcc_builder_vt_ref_t flatcc_builder_create_cached_vtable(flatcc_builder_t *B,
 {
     vtable_descriptor_t *vd, *vd2;
     uoffset_t *pvd, *pvd_head;
-    uoffset_t next;
+    uoffset_t next, next2 = 0;
     voffset_t *vt_;
 
     /* This just gets the hash table slot, we still have to inspect it. */
@@ -1199,6 +1199,7 @@ flatcc_builder_vt_ref_t flatcc_builder_create_cached_vtable(flatcc_builder_t *B,
         if (vd->nest_id != B->nest_id) {
             /* but we don't have to resubmit to cache. */
             vd2 = vd;
+            next2 = next;
             /* See if there is a better match. */
             pvd = &vd->next;
             next = vd->next;
@@ -1216,6 +1217,10 @@ flatcc_builder_vt_ref_t flatcc_builder_create_cached_vtable(flatcc_builder_t *B,
     /* Allocate new descriptor. */
     if (!(vd = reserve_buffer(B, flatcc_builder_alloc_vd, B->vd_end, sizeof(vtable_descriptor_t), 0))) {
         return 0;
+    }
+    /* The descriptor buffer may have moved. */
+    if (vd2) {
+        vd2 = vd_ptr(next2);
     }
     next = B->vd_end;
     B->vd_end += (uoffset_t)sizeof(vtable_descriptor_t);
